@@ -3,10 +3,14 @@
   Props/C20Ieee.lean (the IEEE / real-analysis instantiations), Props/C20IeeeTicks.lean and
   Props/C20IeeeErr.lean (rounding-error bound for the accumulated tick distances) and Props/C20IeeeErr2.lean
   (rounding-error bounds for the tick path progress and the tick time, via Lemmas/FloatErrMul.lean,
-  Lemmas/FloatErrRange.lean). All in namespace Rosu.C20.
+  Lemmas/FloatErrRange.lean), Props/C20IeeeForms.lean (head / repeats / last tick / tail on doubles against their closed
+  forms) and Props/C20IeeeFormsOrder.lean (which order facts between them survive rounding, witnesses for those that do
+  not). All in namespace Rosu.C20.
 -/
 import RosuModel.Props.C20Exact
 import RosuModel.Props.C20Ieee
 import RosuModel.Props.C20IeeeTicks
 import RosuModel.Props.C20IeeeErr
 import RosuModel.Props.C20IeeeErr2
+import RosuModel.Props.C20IeeeForms
+import RosuModel.Props.C20IeeeFormsOrder
